@@ -84,6 +84,16 @@ RAdd   == \E p \in BasePaths, n \in 0..1, s1 \in MwScripts, ms \in { {"GET"}, {"
                /\ Register(PoolIdx(full), ms)
             /\ Scripted(NewScripts(Len(prog) + 1, n, <<s1>>) @@ (<<Len(prog) + 1, 0>> :> mn))
             /\ hist' = Append(hist, [op |-> "add", path |-> p, mw |-> n, scripts |-> SubSeq(<<s1>>, 1, n), ms |-> ms, main |-> mn])
+\* Resource(base, &Regres{}, n middleware): one fixed GET route "<prefix>/regres" (RuxReg.Res), registered in the index too
+ResBases == { <<"/">>, <<>> }
+RRes   == \E b \in ResBases, n \in 0..1, s1 \in MwScripts :
+            /\ Len(routes) < MaxRoutes /\ Res(b, n)
+            /\ LET full == routes'[Len(routes')].path IN
+               /\ \E i \in 1..NP : PoolToks[i] = full
+               /\ ~StaticClash(PoolIdx(full), {"GET"})
+               /\ Register(PoolIdx(full), {"GET"})
+            /\ Scripted(NewScripts(Len(prog) + 1, n, <<s1>>) @@ (<<Len(prog) + 1, 0>> :> "M"))
+            /\ hist' = Append(hist, [op |-> "res", base |-> b, mw |-> n, scripts |-> SubSeq(<<s1>>, 1, n), main |-> "M"])
 RRUse  == \E s1 \in MwScripts :
             /\ Len(routes) > 0 /\ RouteUse(Len(routes), 1)
             /\ Scripted(NewScripts(Len(prog) + 1, 1, <<s1>>))
@@ -94,7 +104,7 @@ StartServing == /\ phase = "reg" /\ saved = <<>> /\ Len(routes) >= 1 /\ Len(prog
                 /\ UNCHANGED <<ivars, regvars, scr>> /\ NoServe
 
 RegStmt == /\ phase = "reg"
-           /\ IF Len(prog) < MaxStmts THEN (REnter \/ RExit \/ RUse \/ RAdd \/ RRUse)
+           /\ IF Len(prog) < MaxStmts THEN (REnter \/ RExit \/ RUse \/ RAdd \/ RRes \/ RRUse)
               ELSE RExit                                       \* only close the groups that are still open
            /\ UNCHANGED phase /\ NoServe
 
